@@ -154,6 +154,12 @@ def run(repo, rep, tier):
     for n in body_walk(po):
         if isinstance(n, ast.Compare) and isinstance(n.ops[0], ast.In):
             v = try_const(n.comparators[0])
+            if v is None and isinstance(n.comparators[0], ast.Attribute) and isinstance(n.comparators[0].value, ast.Name) and n.comparators[0].value.id in ("self", "cls", "Tokenizer"):
+                # a class-level table: read its value
+                try:
+                    v = try_const(repo.module_assign("tokenizer.py", f"Tokenizer.{n.comparators[0].attr}"))
+                except AnalysisError:
+                    v = None
             if isinstance(v, str):
                 handled |= set(v)
             elif isinstance(v, tuple):
@@ -211,49 +217,53 @@ def run(repo, rep, tier):
     def returns_of(f):
         return [n for n in body_walk(f) if isinstance(n, ast.Return) and n.value is not None]
 
-    # parse_operator
-    s = U(po).replace(" ", "")
-    ok = "Token(self.formula[self.offset:self.offset+2],Token.OP_IN)" in s and all(try_const(r.value) in (1, 2) for r in returns_of(po))
-    first_if = [n for n in po.body if isinstance(n, ast.If)]
-    ok = ok and bool(first_if) and "self.formula[self.offset:self.offset+2]in" in U(first_if[0].test).replace(" ", "") and try_const(first_if[0].body[-1].value) == 2
-    rep.ob("C18.R3", po, "parse_operator: two-character operator -> token formula[offset:offset+2], consumes 2", ok, "", key="C18.R3@parse_operator:2")
-    ok = "curr_char=self.formula[self.offset]" in s and try_const(po.body[-1].value) == 1 and "token=Token('%',Token.OP_POST)" in s and "ifcurr_char=='%'" in s \
-        and s.count("Token(curr_char,") >= 3
-    rep.ob("C18.R3", po, "parse_operator: one-character operator -> token formula[offset], consumes 1", ok, "", key="C18.R3@parse_operator:1")
-    # parse_string
-    ps = methods["parse_string"][0]
-    s = U(ps).replace(" ", "")
-    ok = "match=regex.match(self.formula[self.offset:])" in s and "match=match.group(0)" in s and [U(r.value) for r in returns_of(ps)] == ["len(match)"] \
-        and ("self.items.append(Token.make_operand(match))" in s) and "regex=self.STRING_REGEXES[delim]" in s and "delim=self.formula[self.offset]" in s
-    rep.ob("C18.R3", ps, "parse_string: the matched prefix is one token and exactly its length is consumed", ok, "", key="C18.R3@parse_string")
-    appended = [U(c.args[0]) for c in ast.walk(ps) if isinstance(c, ast.Call) and last_attr(c.func) == "append" and c.args]
-    ok = all(a in ("Token.make_operand(match)", "match") for a in appended) and bool(appended)
-    rep.ob("C18.R3", ps, "parse_string: nothing but the match is appended (a quoted string is never split)", ok, f"{appended}", key="C18.R3@parse_string:single")
-    # parse_error
-    pe = methods["parse_error"][0]
-    s = U(pe).replace(" ", "")
-    ok = "subformula=self.formula[self.offset:]" in s and "ifsubformula.startswith(err):" in s and "self.items.append(Token.make_operand(err))" in s and "returnlen(err)" in s
-    rep.ob("C18.R3", pe, "parse_error: a matching error code is one token and its length is consumed", ok, "", key="C18.R3@parse_error")
-    # opener / closer / separator
-    for m in ("parse_opener", "parse_closer", "parse_separator"):
+    # every consumer: on each returning path exactly one token (or one piece of buffered text) is produced and its text
+    # is the consumed slice of the formula (path model in nvstatic/consumers.py)
+    from ..consumers import check_consumer
+    slots = {
+        "parse_operator": [("C18.R3@parse_operator:2", "parse_operator: two-character operator -> token formula[offset:offset+2], consumes 2"),
+                           ("C18.R3@parse_operator:1", "parse_operator: one-character operator -> token formula[offset], consumes 1")],
+        "parse_string": [("C18.R3@parse_string", "parse_string: the matched prefix is one token and exactly its length is consumed"),
+                         ("C18.R3@parse_string:single", "parse_string: nothing but the match is appended (a quoted string is never split)")],
+        "parse_error": [("C18.R3@parse_error", "parse_error: a matching error code is one token and its length is consumed")],
+        "parse_opener": [("C18.R3@parse_opener:one", "parse_opener: consumes exactly one character"),
+                         ("C18.R3@parse_opener:token", "parse_opener: pending name + '(' becomes one function token and the buffer is cleared")],
+        "parse_closer": [("C18.R3@parse_closer:one", "parse_closer: consumes exactly one character"),
+                         ("C18.R3@parse_closer:text", "parse_closer: the closing token text equals the consumed character")],
+        "parse_separator": [("C18.R3@parse_separator:one", "parse_separator: consumes exactly one character"),
+                            ("C18.R3@parse_separator:text", "parse_separator: token text equals the consumed character")],
+    }
+    for m, obs in slots.items():
         f = methods[m][0]
-        ok = all(try_const(r.value) == 1 for r in returns_of(f)) and len(returns_of(f)) == 1
-        rep.ob("C18.R3", f, f"{m}: consumes exactly one character", ok, "", key=f"C18.R3@{m}:one")
-    s = U(methods["parse_opener"][0]).replace(" ", "")
-    ok = "token_value=''.join(self.token)+'('" in s and "delself.token[:]" in s and "Token.make_subexp('{')" in s and "Token.make_subexp('(')" in s \
-        and "self.items.append(token)" in s and "self.token_stack.append(token)" in s
-    rep.ob("C18.R3", methods["parse_opener"][0], "parse_opener: pending name + '(' becomes one function token and the buffer is cleared", ok,
-           "" if ok else "the function name would be emitted twice or lost", key="C18.R3@parse_opener:token")
-    s = U(methods["parse_closer"][0]).replace(" ", "")
-    ok = "iftoken.value!=self.formula[self.offset]:" in s and "self.items.append(token)" in s
-    rep.ob("C18.R3", methods["parse_closer"][0], "parse_closer: the closing token text equals the consumed character", ok, "", key="C18.R3@parse_closer:text")
-    s = U(methods["parse_separator"][0]).replace(" ", "")
-    ok = "curr_char=self.formula[self.offset]" in s and "ifcurr_char==';':token=Token.make_separator(';')" in s.replace("\n", "") and s.count("Token(',',Token.OP_IN)") == 2 and "Token.make_separator(',')" in s
-    rep.ob("C18.R3", methods["parse_separator"][0], "parse_separator: token text equals the consumed character", ok, "", key="C18.R3@parse_separator:text")
+        probs = check_consumer(f)
+        if m in ("parse_opener", "parse_closer", "parse_separator"):
+            if not all(try_const(r.value) == 1 for r in returns_of(f)):
+                probs = probs + ["a path consumes another count than 1"]
+        if m == "parse_opener":
+            if not any(isinstance(c, ast.Call) and U(c.func) == "self.token_stack.append" for c in body_walk(f)):
+                probs = probs + ["the opener is not pushed on the token stack"]
+        for key, text in obs:
+            rep.ob("C18.R3", f, text, not probs, "; ".join(probs[:2]) + (": the token list is no longer the formula text in order" if probs else ""), key=key)
     # main loop
-    s = U(parse).replace(" ", "")
-    ok = "else:self.token.append(curr_char)self.offset+=1" in s.replace("\n", "")
-    rep.ob("C18.R3", parse, "parse: an ordinary character is buffered and consumes one", ok, "", key="C18.R3@parse:buffer")
+    from ..symexec import body_paths
+    ok = False
+    if loop:
+        kinds = []
+        for conds, steps, end in body_paths(loop[0].body):
+            disp = any(disp_calls and any(x is disp_calls[0] for x in ast.walk(st_)) for st_ in steps)
+            buf = [st_ for st_ in steps if isinstance(st_, ast.Expr) and isinstance(st_.value, ast.Call) and U(st_.value.func) == "self.token.append"]
+            adv = [st_ for st_ in steps if isinstance(st_, ast.AugAssign) and U(st_.target) == "self.offset" and isinstance(st_.op, ast.Add)]
+            sci = any("check_scientific_notation" in U(t) and o for t, o in conds)
+            if sci:
+                kinds.append("sci" if not buf and not disp and not adv else "bad")
+            elif disp:
+                kinds.append("dispatch" if not buf and len(adv) == 1 else "bad")
+            else:
+                good = len(buf) == 1 and U(buf[0].value.args[0]) == "curr_char" and len(adv) == 1 and try_const(adv[0].value) == 1
+                kinds.append("buffer" if good else "bad")
+        ok = "bad" not in kinds and "buffer" in kinds and "dispatch" in kinds
+    rep.ob("C18.R3", parse, "parse: an ordinary character is buffered and consumes one", ok, "" if ok else "some path through the scanning loop neither dispatches, nor buffers exactly the current character and advances by one",
+           key="C18.R3@parse:buffer")
     ok = isinstance(parse.body[-1], ast.Expr) and U(parse.body[-1].value) == "self.save_token()"
     rep.ob("C18.R3", parse, "parse: the pending operand is flushed at the end of input", ok, "" if ok else "trailing operand characters are dropped", key="C18.R3@parse:final-flush")
     st = methods["save_token"][0]
@@ -264,7 +274,12 @@ def run(repo, rep, tier):
     ok = "self.token.append(curr_char)self.offset+=1returnTrue" in s and "curr_char=self.formula[self.offset]" in s
     rep.ob("C18.R3", csn, "check_scientific_notation: the sign is buffered and consumes one", ok, "", key="C18.R3@sci:buffer")
     mo = repo.func("tokenizer.py", "Token.make_operand")
-    ok = U(mo.body[-1]).replace(" ", "") == "returncls(value,cls.OPERAND,subtype)"
+    # every token the classmethod builds carries the text it was given, unchanged, as an OPERAND
+    vparam = mo.args.args[1].arg
+    builds = [r.value for r in body_walk(mo) if isinstance(r, ast.Return) and isinstance(r.value, ast.Call) and U(r.value.func) == "cls"]
+    ok = bool(builds) and all(len(c.args) >= 2 and U(c.args[0]) == vparam and U(c.args[1]) == "cls.OPERAND" for c in builds) and \
+        not any(isinstance(n, (ast.Assign, ast.AugAssign)) and any(isinstance(x, ast.Name) and x.id == vparam and isinstance(x.ctx, ast.Store) for x in ast.walk(n)) for n in body_walk(mo)) and \
+        len(builds) == len([r for r in body_walk(mo) if isinstance(r, ast.Return)])
     rep.ob("C18.R3", mo, "make_operand keeps the operand text unchanged", ok, "", key="C18.R3@make_operand")
     ms = repo.func("tokenizer.py", "Token.make_subexp")
     ok = U(ms.body[-1]).replace(" ", "") == "returncls(value,type_,subtype)"
